@@ -2,26 +2,30 @@
 (* P-layer for C18 (collapsed forwarding).  One cacheable URL.  Fetches are origin requests; a fetch is "open" from the
    moment the origin received it until the origin finished (or aborted) its reply.  A request that reaches Squid while a
    fetch is open must not cause another origin request - unless the open fetch's reply turned out not to be shareable
-   (e.g. Cache-Control: private) or it failed.  Every client that is answered with a version gets that version's bytes,
+   (e.g. Cache-Control: private) or it failed, or the reply is one that HTTP allows to be reused only after asking again
+   (no-cache, max-age=0 must-revalidate, already expired) AND the request was sent after that reply's head had reached
+   Squid: such a request is an ordinary request for a stored stale response (RFC 9111 4.2.4), not a collapsed one.  Every client that is answered with a version gets that version's bytes,
    and a body presented as complete is the whole body (Hits!OneVersion). *)
 EXTENDS Naturals, Integers, FiniteSets
 VARIABLES open,      \* set of versions whose fetch is in progress
           meta,      \* v -> [shareable ("?" until the head is sent, then TRUE/FALSE), fin ("no"/"complete"/"aborted"), len, status]
-          during,    \* client request id -> set of fetches that were open when the request was sent
+          during,    \* client request id -> set of [v, head]: fetches that were open when the request was sent, and
+                     \* whether the origin had already sent that fetch's head
           caused     \* v -> id of the client request whose forwarding created fetch v
 cvars == <<open, meta, during, caused>>
 NoVal == 0 - 1
 CInit == open = {} /\ meta = <<>> /\ during = <<>> /\ caused = <<>>
 Ext(f, k, v) == [x \in DOMAIN f \cup {k} |-> IF x = k THEN v ELSE f[x]]
-Req(id) == during' = Ext(during, id, open) /\ UNCHANGED <<open, meta, caused>>
+Req(id) == during' = Ext(during, id, {[v |-> w, head |-> meta[w].head] : w \in open}) /\ UNCHANGED <<open, meta, caused>>
 FetchStart(v, id, len, status) ==
   /\ open' = open \cup {v} /\ caused' = Ext(caused, v, id)
-  /\ meta' = Ext(meta, v, [shareable |-> "?", fin |-> "no", len |-> len, status |-> status])
+  /\ meta' = Ext(meta, v, [shareable |-> "?", head |-> FALSE, reval |-> FALSE, fin |-> "no", len |-> len, status |-> status])
   /\ UNCHANGED during
-FetchHead(v, shareable) == meta' = [meta EXCEPT ![v].shareable = shareable] /\ UNCHANGED <<open, during, caused>>
+\* reval: the reply may be reused for later requests only after revalidation
+FetchHead(v, shareable, reval) == meta' = [meta EXCEPT ![v].shareable = shareable, ![v].head = TRUE, ![v].reval = reval] /\ UNCHANGED <<open, during, caused>>
 FetchEnd(v, fin) == meta' = [meta EXCEPT ![v].fin = fin] /\ open' = open \ {v} /\ UNCHANGED <<during, caused>>
 \* evaluated when everything is over: fetch v was caused by request id although fetch w was open when id was sent
-Justified(v) == \A w \in during[caused[v]] : w # v => (meta[w].shareable # TRUE \/ meta[w].fin # "complete")
+Justified(v) == \A w \in during[caused[v]] : w.v # v => (meta[w.v].shareable # TRUE \/ meta[w.v].fin # "complete" \/ (w.head /\ meta[w.v].reval))
 Final == \A v \in DOMAIN caused : Justified(v)
 Done == Final /\ UNCHANGED cvars
 CResp(hv, bv, status, blen, intact, complete) ==
